@@ -133,7 +133,10 @@ def gen_case(rnd, st):
             3.1e20, -4.0e25, 7e-3]
     vars_ = []
     for i in range(nv):
-        miss = rnd.choice([-999, -9999, -99999, -888])
+        # codes in use: short ones, the wide ICARTT code with 7 significant
+        # digits, a fractional one, a large positive one
+        miss = rnd.choice([-999, -9999, -99999, -888, -9999999, -8888888,
+                           -777.5, 1e20])
         vals, mask = [], []
         for k in range(nrec):
             vals.append(rnd.choice(mags) * rnd.choice([1, 1, -1, 2.5]))
